@@ -489,6 +489,7 @@ func ruleC11(c *Ctx) {
 	// R4
 	if db != nil {
 		layerArithmetic(c, "C11-R4", db)
+		keyStructRule(c, "C11-R4/key-placement")
 		rejectionWhitelist(c, "C11-R5", db)
 	}
 }
